@@ -22,16 +22,17 @@ RULE = ("grammar-directed generation to depth 6 (sums, products, powers with ^ a
         "evaluates to a number at least once; distinct = the string itself.")
 ASSUMPTIONS = [
     "only numbers are compared: when immediate evaluation raises ZeroDivisionError the deferred value is the one Python computes with NaN substituted at the dividing node (checked on parenthesised strings through the mirror term); any other exception must stop the deferred form too; exception types are not compared because constant sub-terms fold at parse time",
+    "all variable / element values are floats (as in MAD-X), so that the sign of a zero can be compared strictly: mixed int/float arithmetic is where Cython 3.3's generated fast paths lose the sign of zero in the compiled build (toolchain artefact, DESIGN 8.2)",
     "Python's value is required only for fully parenthesised strings (operator precedence of MAD-X differs from Python's by design: unary minus binds tighter than ^, ^ is left associative)",
 ]
 TIMEOUT = {"quick": 900, "thorough": 5400}
 
 VARS = ["a", "b.c", "k%1", "x_1", ".p", "on_x1", "lrg"]
 NUMS = ["12", "1.", ".5", "1e3", "1.e-3", ".5E+2", "0", "2", "3.25", "0.0", "1E0", "7"]
-F1 = ["sin", "cos", "exp", "sqrt", "fabs", "atan", "floor", "log"]
+F1 = ["sin", "cos", "exp", "sqrt", "fabs", "atan", "log", "tan"]       # float -> float only (see same_number)
 F2 = ["atan2", "hypot", "pow", "fmod"]
 ELEMS = [("el", "a"), ("el", "b"), ("q.1", "k1"), ("q.1", "l")]
-VALUES = [0.0, 1.0, -2.5, 3.0, 0.5, 2, -1, 1e3, 700.0, -0.0, 1e-8]
+VALUES = [0.0, 1.0, -2.5, 3.0, 0.5, 2.0, -1.0, 1e3, 700.0, -0.0, 1e-8, -0.0, 0.0]
 
 
 def plan(tier, seed):
@@ -111,6 +112,11 @@ def same_number(a, b):
         return False
     if isinstance(a, complex):
         return (a == b) or (a != a and b != b)
+    if isinstance(a, float) and a == 0 and b == 0:
+        # MAD-X arithmetic is float-only here (variables, numbers and functions are floats), which is IEEE-exact
+        # in both builds: the sign of a zero IS compared (a dropped "0 +" turns +0.0 into -0.0 and atan2 /
+        # copysign turn that into a different number)
+        return math.copysign(1, a) == math.copysign(1, b)
     return a == b or (a != a and b != b)
 
 
@@ -138,7 +144,7 @@ def run_shard(spec):
     get = spec.get("get", "item")
     mgr = xdeps.Manager()
     variables = {v: 1.0 for v in VARS}
-    variables.update({"a": 2.0, "b.c": -4.0, "k%1": 3.0, "x_1": 0.5, ".p": 0.0, "on_x1": 1, "lrg": 700.0})
+    variables.update({"a": 2.0, "b.c": -4.0, "k%1": 3.0, "x_1": 0.5, ".p": 0.0, "on_x1": 1.0, "lrg": 700.0})
     if get == "attr":
         elements = {"el": Elem(a=1.5, b=2.5), "q.1": Elem(k1=-0.25, l=0.0)}
     else:
